@@ -860,8 +860,9 @@ def run(chk):
                               "the implementation-level searches (registry, hand-checked pairs, case, panics, generated fonts) found no failing input"},
                       no_input=True)
     chk.assumptions = C.DEFAULT_ASSUMPTIONS + [
-        "binary_search_by is modelled by its contract (any index whose comparison is Equal, or none when there is none); C18_registry_sorted / "
-        "C18_search_partitioned show the registry satisfies the contract's precondition; the executable model scans linearly",
+        "binary_search_by (core::slice) is modelled by its documented contract: on a slice partitioned Less*/Equal*/Greater* w.r.t. the comparator it "
+        "returns some index whose comparison is Equal, or Err when there is none; C18_search_partitioned proves the precondition for every probe "
+        "string and C18_registry_hits quantifies over every permitted result; the executable model scans linearly (first Equal row)",
         "RecordList::index (ttf-parser binary search over script / language-system records) is modelled as membership: fonts whose record arrays "
         "are not sorted by tag (invalid OpenType) are outside the model",
         "C18_features abstracts hb_ot_map_builder_t::compile to the set of feature indices that take part (requested global features found through "
